@@ -73,6 +73,7 @@ func checkC18(c *Ctx) {
 	c18PathMirror(c)
 	c18Bind(c)
 	c18FreshSchema(c)
+	c18ServedAsRegistered(c)
 	// ... nor from a list cached next to the tool registry that a re-registration fails to drop (C12's rule)
 	accs := CollectAccesses(c)
 	c12DerivedCache(c, discoverRegistries(c, accs), accs)
@@ -188,6 +189,28 @@ func c18Terminates(c *Ctx, gens []*ssa.Function) {
 			nGuarded++
 			c.R.Hold("R-terminates", "guarded recursion "+fname(e.from)+" -> "+fname(e.to), c.Pos(e.site.Pos()), e.why+" guard")
 		}
+	}
+	// among the depth-limited converters (functions that return at depth <= 0) the depth IS the termination argument:
+	// a cycle that consists of such functions only must contain a call that passes a smaller depth — whatever else the
+	// style's findings say. (Cycles are the unguarded ones found above.)
+	depthLimited := map[string]bool{}
+	for _, g := range gens {
+		if depthExitParam(g) >= 0 {
+			depthLimited[fname(g)] = true
+		}
+	}
+	for _, cy := range cycles {
+		all := true
+		for _, nme := range strings.Split(cy, " -> ") {
+			if !depthLimited[nme] {
+				all = false
+			}
+		}
+		if !all {
+			continue
+		}
+		c.R.Violate("R-terminates", "depth-limited recursion cycle "+cy+" reduces the depth", c.Pos(gens[0].Pos()),
+			sprintf("the functions %s call each other, bounded only by their depth parameter, and no call on that cycle passes a smaller depth: types that refer to each other through plain or pointer struct members (Person{*Company}, Company{*Person}) recurse until the stack overflows", cy))
 	}
 	// findings are reported per reference style (one per root cause and style), listing the cycles found
 	roots, styleLabel := c18Styles(c, gens)
@@ -1078,4 +1101,60 @@ func fnames(fs []*ssa.Function) string {
 		out = append(out, fname(f))
 	}
 	return strings.Join(out, ", ")
+}
+
+// c18ServedAsRegistered (R-served-as-registered): "the schema a client reads is, as JSON, the schema the server
+// registered". On the server's side of tools/list a Tool is therefore never re-created by decoding JSON: a
+// marshal/unmarshal "deep copy" goes through the schema types' own (un)marshallers, which are not round-trip safe
+// (keywords next to a $ref are dropped, extension members move). The registered object itself is what is encoded.
+func c18ServedAsRegistered(c *Ctx) {
+	toolT := c.P.RootNamed("Tool")
+	if toolT == nil {
+		return
+	}
+	n := 0
+	for _, fn := range c.P.LibFns {
+		if clientSide(c, fn) {
+			continue
+		}
+		ir.EachInstr(fn, func(_ *ssa.BasicBlock, _ int, in ssa.Instruction) {
+			call, ok := in.(*ssa.Call)
+			if !ok {
+				return
+			}
+			nm := ir.CallName(call)
+			var target ssa.Value
+			switch nm {
+			case "encoding/json.Unmarshal":
+				target = call.Call.Args[1]
+			case "(*encoding/json.Decoder).Decode":
+				target = call.Call.Args[1]
+			default:
+				return
+			}
+			t := ir.Unwrap(target).Type()
+			for {
+				if pt, ok := t.(*types.Pointer); ok {
+					t = pt.Elem()
+					continue
+				}
+				break
+			}
+			if sl, ok := t.Underlying().(*types.Slice); ok {
+				t = sl.Elem()
+				if pt, ok := t.(*types.Pointer); ok {
+					t = pt.Elem()
+				}
+			}
+			if !types.Identical(t, toolT) {
+				return
+			}
+			n++
+			c.R.Violate("R-served-as-registered", "Tool decoded from JSON in "+fname(fn), c.Pos(call.Pos()),
+				sprintf("%s, on the server side, re-creates a Tool by decoding JSON (a marshal/unmarshal copy): the schema types do not survive that round trip unchanged, so tools/list no longer serves the schema that was registered", fname(fn)))
+		})
+	}
+	if n == 0 {
+		c.R.Hold("R-served-as-registered", "no server-side function decodes a Tool from JSON", "", "registered tools are encoded as they are")
+	}
 }
